@@ -148,6 +148,7 @@ def run(repo, rep):
             rep.fail('C11.b', label, '%s:%d' % (f.module.relpath, call.lineno),
                      '%s prints the child %s with a context derived through %d nested_call() steps (%s); each container must '
                      'consume exactly one depth level' % (f.name, src(val), k, src(ctxe)))
+    n += ctxmodel.construction_sites(repo, rep, 'C11.b', 'the remaining depth must be derived level by level')
     rep.floor('C11.b', n, 9)
 
     # ---------------------------------------------------------------- C11.c
